@@ -93,6 +93,10 @@ def level0(info):
                              np.arange(size[1]), np.arange(size[0]),
                              indexing="ij")
     v = 1 + (7 * x + 31 * y + 53 * z + 97 * c) % 200
+    if info["data_type"] == "float32":
+        # values whose sums are not exactly representable in float32 (the
+        # position code stays recoverable: distinct values)
+        v = v * 0.3 + 1000.1
     return v.astype(info["data_type"])
 
 
